@@ -53,6 +53,9 @@ POOL = [
     ("y ~ bs(x, df=3) + (bs(x, df=3)|g)", ["y", "x", "g"], False),
     ("y ~ addk(np.log(x), k=addk(z, k=w))", ["y", "x", "z", "w"], True),
     ("y ~ I(x > 2) + I(z == 1)", ["y", "x", "z"], False),
+    ("y ~ x + z - z", ["y", "x"], True),
+    ("y ~ x*z - x:z - z + np.log(w) - np.log(w)", ["y", "x"], True),
+    ("y ~ x + (1|g) + (w|h) - (w|h) - (1|h)", ["y", "x", "g"], False),
     ("y ~ z + (x|g)", ["y", "z", "x", "g"], True),
     ("y ~ (0 + np.log(x)|g) + (w|h)", ["y", "x", "g", "w", "h"], True),
 ]
@@ -92,6 +95,18 @@ def with_missing(cells, marker="none"):
                 col[r] = None
                 df[c] = col
         return df
+    if marker == "big":  # hundreds of rows, a single incomplete one
+        out = pd.concat([clean()] * 50, ignore_index=True)
+        for r, c in cells:
+            rr = r + 6 * 20  # somewhere in the middle
+            if c in NUMERIC:
+                out[c] = out[c].astype(float)
+                out.loc[rr, c] = np.nan
+            else:
+                col = out[c].astype(object)
+                col[rr] = None
+                out[c] = col
+        return out
     if marker == "ordcat":  # ordered categoricals declaring a category that never occurs (and one that may vanish with a dropped row)
         out = with_missing(cells, "none")
         for c, cats in (("f", ["c", "zz", "a", "b"]), ("g", ["g2", "g1", "g0"]), ("h", ["h3", "h1", "hx", "h2"]), ("yc", ["b", "q", "c", "a"])):
@@ -121,10 +136,11 @@ def names_in(text):
     return set(bq) | set(re.findall(r"[A-Za-z_][A-Za-z0-9_.]*", rest))
 
 
-def patterns(used, tier):
-    cols = list(used) + UNUSED
+def patterns(used, tier, formula=""):
+    mentioned = [c for c in clean().columns if c in names_in(formula) and c not in used]  # written in the formula but removed again
+    cols = list(used) + mentioned + UNUSED
     if tier == "single":
-        cols = list(dict.fromkeys(list(used) + ["y", "x", "z", "w", "f", "g", "h", "u1", "u2", "k"]))
+        cols = list(dict.fromkeys(list(used) + mentioned + ["y", "x", "z", "w", "f", "g", "h", "u1", "u2", "k"]))
     cells = [(r, c) for r in range(N) for c in cols]
     out = [[cell] for cell in cells]
     if tier == "single":
@@ -159,6 +175,8 @@ def units(tier, seed):
         u.append([{"kind": "patterns", "i": i, "tier": "single", "marker": "nullable"}])
     for i in (10, 12, 13, 14, 17, 19, 20, 22, 23):
         u.append([{"kind": "patterns", "i": i, "tier": "single", "marker": "ordcat"}])
+    for i in (0, 2, 10, 13, 17, 21, 24):
+        u.append([{"kind": "patterns", "i": i, "tier": "single", "marker": "big"}])
     for i in range(len(POOL)):
         u.append([{"kind": "patterns", "i": i, "tier": tier, "marker": m} for m in (["none"] if tier == "quick" else ["none", "nan"])])
     return u
@@ -193,7 +211,9 @@ def check_patterns(case, acc):
         build(case["after"], clean())  # an earlier, unrelated design in the same process
     refcache = {}
     clean_df = clean()
-    ref_frame = with_missing([], "ordcat") if case["marker"] == "ordcat" else clean_df
+    ref_frame = with_missing([], "ordcat") if case["marker"] == "ordcat" else with_missing([], "big") if case["marker"] == "big" else clean_df
+    nrows = len(ref_frame)
+    off = 120 if case["marker"] == "big" else 0
     try:
         full = mats(build(f, ref_frame))
     except Exception:
@@ -207,11 +227,11 @@ def check_patterns(case, acc):
     if dm0.group is not None:
         gterms_of = {k: (v.start, v.stop) for k, v in dm0.group.slices.items()}
     nhit = 0
-    pats = patterns(used, case["tier"])
+    pats = patterns(used, case["tier"], f)
     for cells in pats:
         df = with_missing(cells, case["marker"])
-        bad_rows = sorted({r for r, c in cells if c in used})
-        kept = [r for r in range(N) if r not in bad_rows]
+        bad_rows = sorted({r + off for r, c in cells if c in used})
+        kept = [r for r in range(nrows) if r not in bad_rows]
         tag = f"{f!r} missing={cells}"
         if bad_rows:
             nhit += 1
@@ -271,10 +291,10 @@ def check_patterns(case, acc):
                 if b is None or b.shape != a.shape:
                     problems.setdefault(("pass-keeps-rows", nm), f"{tag}: {nm} under 'pass' has shape {None if b is None else b.shape}, expected {a.shape}")
                     continue
-                a2 = a.reshape(N, -1)
-                b2 = b.reshape(N, -1)
+                a2 = a.reshape(nrows, -1)
+                b2 = b.reshape(nrows, -1)
                 exp = a2.copy()
-                for r, c in num_missing:
+                for r, c in [(r_ + off, c_) for r_, c_ in num_missing]:
                     if nm == "response":
                         if c in ("y", "s", "n"):
                             exp[r, :] = np.nan
